@@ -3,6 +3,12 @@
 import json, os, subprocess
 V = os.path.dirname(os.path.dirname(os.path.abspath(__file__)))
 props = json.load(open(os.path.join(V, "lib", "manifest_props.json")))
+props["claimed"] = {}
+for fn in sorted(os.listdir(os.path.join(V, "lib", "props"))):
+    if fn.endswith(".json"):
+        c = json.load(open(os.path.join(V, "lib", "props", fn)))
+        if "manifest" in c:
+            props["claimed"][fn[:-5]] = c["manifest"]
 allp = [json.loads(l)["id"] for l in open(os.path.join(V, "properties.jsonl"))]
 hooks = subprocess.run(["git", "-C", "/repo", "log", "--format=%H %s"], stdout=subprocess.PIPE).stdout.decode().splitlines()
 hook_commits = [l.split()[0] for l in hooks if " verif hook" in l]
